@@ -490,6 +490,41 @@ Section Client.
       | _, _ => (s1, rst, t1, res)
       end.
 
+  (* the same, also telling whether ONLY the clean-up of the dangling old index failed after a new
+     index was pushed (ReferrersError.IsReferrersIndexDelete): deleteWithIndexing then finishes *)
+  Definition update_referrers_index_x (s : srv) (rst : rstate) (subj : desc) (ch : rchange)
+    : srv * rstate * trace * result * bool :=
+    if negb (valid_digest (d_dg subj)) then (s, rst, [], RErr EOther, false)
+    else
+      let tag := ref_tag (d_dg subj) in
+      let '(s1, t1, res, old) := referrers_from_index s tag in
+      let proceed (oldd : option desc) (oldl : list desc) :=
+        match apply_change oldl (Some ch) with
+        | None => (s1, rst, t1, ROk, false)
+        | Some upd =>
+            let '(s2, rst2, t2, res2) :=
+              if negb (is_nil upd) || skip_gc then
+                let j := gen_index upd in
+                man_put s1 rst (mkDesc mt_index (H j) (len j)) j true tag
+              else (s1, rst, [], ROk) in
+            match res2 with
+            | ROk =>
+                match oldd with
+                | Some od => if skip_gc then (s2, rst2, t1 ++ t2, ROk, false)
+                             else let '(s3, t3, res3) := delete_req s2 od true in
+                                  (s3, rst2, t1 ++ t2 ++ t3, res3,
+                                   match res3 with ROk => false | _ => negb (is_nil upd) end)
+                | None => (s2, rst2, t1 ++ t2, ROk, false)
+                end
+            | _ => (s2, rst2, t1 ++ t2, res2, false)
+            end
+        end in
+      match res, old with
+      | ROk, Some (od, l) => proceed (Some od) l
+      | RErr ENotFound, _ => proceed None []
+      | _, _ => (s1, rst, t1, res, false)
+      end.
+
   (* referrersByTagSchema (artifactType "") *)
   Definition tag_schema_referrers (s : srv) (d : desc) : srv * trace * result :=
     if negb (valid_digest (d_dg d)) then (s, [], RErr EOther)
@@ -546,10 +581,16 @@ Section Client.
                 | Some true =>
                     let '(s3, t3, res3) := delete_req s2 d true in (s3, rst2, t1 ++ t2 ++ t3, res3)
                 | Some false =>
-                    let '(s3, rst3, t3, res3) := update_referrers_index s2 rst2 sj (RRemove d) in
+                    let '(s3, rst3, t3, res3, cleanup) := update_referrers_index_x s2 rst2 sj (RRemove d) in
                     match res3 with
                     | ROk => let '(s4, t4, res4) := delete_req s3 d true in (s4, rst3, t1 ++ t2 ++ t3 ++ t4, res4)
-                    | _ => (s3, rst3, t1 ++ t2 ++ t3, res3)
+                    | _ =>
+                        if cleanup then
+                          (* the index is updated, only the dangling old index stayed: finish the
+                             deletion, report the clean-up error afterwards *)
+                          let '(s4, t4, res4) := delete_req s3 d true in
+                          (s4, rst3, t1 ++ t2 ++ t3 ++ t4, match res4 with ROk => res3 | _ => res4 end)
+                        else (s3, rst3, t1 ++ t2 ++ t3, res3)
                     end
                 end
             end
